@@ -31,6 +31,7 @@ type Program struct {
 	funcs     map[string]*ssa.Function // "pkg.key"
 	files     map[string]*ast.File     // filename -> ast
 	implLocks map[*ssa.Function][]implicitLock
+	implFrozen bool
 }
 
 func loadProgram(repo string, want []string) (*Program, error) {
@@ -90,6 +91,10 @@ func loadProgram(repo string, want []string) (*Program, error) {
 			p.funcs[short+"."+funcKey(fn)] = fn
 		}
 	}
+	for _, fn := range p.funcs {
+		p.implicitLocks(fn)
+	}
+	p.implFrozen = true
 	// contract files
 	for short := range p.pkgs {
 		cp := contractPath(repo, short)
